@@ -9,7 +9,10 @@ def extra(work, v, thorough):
     tf = os.path.join(out, "hybrid.ndjson")
     res = storelib.validate(work, tf, "hybrid", module="HybridTrace", cfg="HybridTrace.cfg", timeout=3000)
     storelib.report(v, work, "C02", tf, res)
-    return {"hybrid_histories": res["traces"], "_traces": res["traces"]}
+    # caches restored by LoadCache: every resident entry tracked, policy total = resident cost (PersistTrace)
+    import persistcheck
+    pres, _ = persistcheck.trace_part(work, v, "C02", 40 if thorough else 8, 0, {})
+    return {"hybrid_histories": res["traces"], "loads_with_accounting_compared": pres["loads"], "_traces": res["traces"] + pres["traces"]}
 
 PLAN = {
     "extra": extra,
